@@ -184,10 +184,11 @@ def show(f):
 
 
 def short_atom(a):
-    """Stable, readable key fragment for an atom (last path segments of the calls/fields it names)."""
-    segs = re.findall(r"[A-Za-z_][A-Za-z0-9_]*(?=\(|$|[|,) ])", a.replace("::<T, A>", "").replace("::<T>", ""))
-    segs = [s for s in segs if s not in ("SELF", "CTX", "ITEM", "RESULT", "is", "T", "A", "lit", "cparam")]
-    return "/".join(segs[:3]) or a[:40]
+    """Stable, readable key fragment for an atom: the last path segment of each call / field it names."""
+    if "::" not in a:
+        return a
+    segs = re.findall(r"::([A-Za-z_][A-Za-z0-9_]*)(?=[(|),.]|$)", a)
+    return "/".join(segs[-3:]) or a[:40]
 
 
 # =====================================================================================================
@@ -535,7 +536,7 @@ def form_suffix(cx, fs):
     return ""
 
 
-@RULES.rule("R6.1", "assertions are emitted iff layout_tests is on, and layout_tests guards nothing else", floor=26)
+@RULES.rule("R6.1", "assertions are emitted iff layout_tests is on, and layout_tests guards nothing else", floor=24)
 def r6_1(rep):
     """Necessary: with `--no-layout-tests` no assertion may be emitted and nothing else may change.
     Breaks on e.g. dropping `ctx.options().layout_tests &&` in CompInfo::codegen (assertions appear although
@@ -802,7 +803,7 @@ def chain_of(b, e):
     return names, clos, n
 
 
-@RULES.rule("R6.2", "both assertion forms are complete; skip conditions are exactly the documented ones", floor=40)
+@RULES.rule("R6.2", "both assertion forms are complete; skip conditions are exactly the documented ones", floor=81)
 def r6_2(rep):
     """Necessary: every concrete struct/union with a layout gets size + align + one offset check per named
     data member, in both the `const _` and the `#[test]` form; instantiations get size + align.
@@ -1084,7 +1085,7 @@ def field_filter(rep, cx, who, form, clo, fs):
 # =====================================================================================================
 # R6.3
 # =====================================================================================================
-@RULES.rule("R6.3", "asserted numbers are the item's own layout.size / layout.align / field offset / 8", floor=30)
+@RULES.rule("R6.3", "asserted numbers are the item's own layout.size / layout.align / field offset / 8", floor=32)
 def r6_3(rep):
     """Necessary: the asserted numbers are clang's for this very item.
     Breaks on e.g. `let size = layout.size.max(1)`, `let field_offset = offset / 8 + 1`, swapping `#size` and `#align`
@@ -1133,8 +1134,7 @@ def r6_3(rep):
                 num = c["num"][0][1] if len(c["num"]) == 1 and c["num"][0][0] == "i" else None
                 if num is None:
                     rep.bad(key + ":number", "the expected value is not a single interpolated number", loc)
-                    continue
-                if kind in ("size", "align"):
+                elif kind in ("size", "align"):
                     s = cx.canon(num, 10)
                     suffix = "~std::prelude::v1::Some.0.ir::layout::Layout::" + kind
                     ok = s.endswith(suffix) and own_layout_ok(s[:-len(suffix)])
@@ -1144,7 +1144,6 @@ def r6_3(rep):
                     offset_number(rep, cx, key, num, clo, loc)
                 else:
                     rep.bad(key + ":number", "unrecognised check", loc)
-                    continue
                 # measured type / field
                 if c["ty"] is not None:
                     t = cx.canon(c["ty"], 10)
@@ -1193,7 +1192,7 @@ def offset_number(rep, cx, key, num, clo, loc):
 # =====================================================================================================
 # R6.4 (added): the stored offset is libclang's number
 # =====================================================================================================
-@RULES.rule("R6.4", "FieldData::offset is clang_Cursor_getOffsetOfField of the member, stored unmodified", floor=8)
+@RULES.rule("R6.4", "FieldData::offset is clang_Cursor_getOffsetOfField of the member, stored unmodified", floor=6)
 def r6_4(rep):
     """Necessary: the number divided by 8 in the offset assertion is the one libclang reported.
     Breaks on e.g. `let offset = cur.offset_of_field().ok().map(|o| o & !7)` in CompInfo::from_ty, an assignment to
